@@ -31,7 +31,9 @@ func entryAlphabet(r *rand.Rand) []keytabfmt.Entry {
 	comps := [][]string{{}, {"a"}, {"HTTP", "h.example.com"}, {"a", "b", "c", "d"}, {""}, {strings.Repeat("x", 300)}}
 	realms := []string{"R.COM", "OTHER.COM", ""}
 	etypes := []uint16{17, 18, 23, 99, 0xFF79}
-	kvnos := []kv{{1, nil}, {2, u32p(2)}, {255, u32p(256)}, {0, u32p(0xffffffff)}, {5, u32p(0)}}
+	kvnos := []kv{{1, nil}, {2, u32p(2)}, {255, u32p(256)}, {0, u32p(0xffffffff)}, {5, u32p(0)},
+		// key version 0, and 8-bit versions with the top bit set, with the 32-bit field absent / zero / set
+		{0, nil}, {0, u32p(0)}, {127, nil}, {128, nil}, {255, nil}, {128, u32p(0)}, {200, u32p(200)}, {1, u32p(0x80000000)}}
 	tss := []uint32{0, 1, 0x7fffffff, 0x80000000, 0xffffffff}
 	var out []keytabfmt.Entry
 	for _, c := range comps {
@@ -290,7 +292,7 @@ func Run(c *engine.Ctx) {
 	c.Add("transitions", evals)
 	c.Add("traces_validated_against_impl", evals)
 	c.Cov["entry_alphabet"] = len(alpha)
-	c.Cov["rule"] = "files: every single-entry keytab over the full entry alphabet (6 principals x 3 realms x 5 etypes x 5 kvno shapes x 5 timestamps = 2250) x version {1,2} x 5 hole patterns; all ordered pairs over a 14-entry sub-alphabet; all sequences of length 3..6 (8 thorough) over a 3-entry alphabet; lookups: every query of the near-miss product against every 1-3 entry keytab of a lookup alphabet; AddEntry for six etypes. distinct = distinct (version, holes, count, size) file shapes parsed and round-tripped, and distinct lookup outcomes"
+	c.Cov["rule"] = "files: every single-entry keytab over the full entry alphabet (6 principals x 3 realms x 5 etypes x 13 kvno shapes (incl. version 0 and 8-bit versions >= 128 with the 32-bit field absent / zero / set) x 5 timestamps = 5850) x version {1,2} x 5 hole patterns; all ordered pairs over a 14-entry sub-alphabet; all sequences of length 3..6 (8 thorough) over a 3-entry alphabet; lookups: every query of the near-miss product against every 1-3 entry keytab of a lookup alphabet; AddEntry for six etypes. distinct = distinct (version, holes, count, size) file shapes parsed and round-tripped, and distinct lookup outcomes"
 }
 
 func trunc(s string) string {
@@ -335,6 +337,13 @@ func lookups(c *engine.Ctx, r *rand.Rand, evals *int64) {
 		mk([]string{}, "R.COM", 18, kv{2, u32p(2)}, 810),
 		mk([]string{"svc"}, "B@R.COM", 18, kv{2, u32p(2)}, 820),
 		mk([]string{""}, "R.COM", 18, kv{2, u32p(2)}, 830),
+		// key version 0 (the only rc4 entries: a lookup for "any version" must find them) and 8-bit versions >= 128
+		mk(P, "R.COM", 23, kv{0, nil}, 900),
+		mk(P, "OTHER.COM", 23, kv{0, u32p(0)}, 910),
+		mk(P, "R.COM", 17, kv{200, nil}, 920),
+		// same criteria as the second entry, newer timestamp, other key: whatever the file order, the newest entry
+		// with the required kvno is the one returned (GetEncryptionKey's documented rule)
+		mk(P, "R.COM", 18, kv{2, u32p(2)}, 250),
 	}
 	type query struct {
 		princ []string
@@ -345,7 +354,7 @@ func lookups(c *engine.Ctx, r *rand.Rand, evals *int64) {
 	var qs []query
 	for _, p := range [][]string{P, {"HTTP"}, {"HTTP", "h", "x"}, {"HTTP", "g"}, {"http", "h"}, {}, {"HTTP/h"}, {""}, {"svc@B"}, {"svc"}, {"HTTP", "h/x"}, {"", ""}} {
 		for _, rl := range []string{"R.COM", "OTHER.COM", "r.com", "", "B@R.COM"} {
-			for _, k := range []int{0, 1, 2, 3, 4, 300, 256} {
+			for _, k := range []int{0, 1, 2, 3, 4, 300, 256, 200} {
 				for _, et := range []int32{18, 17, 23} {
 					qs = append(qs, query{p, rl, k, et})
 				}
